@@ -5,6 +5,11 @@ VERIF = os.path.dirname(os.path.dirname(os.path.abspath(__file__)))
 
 # id -> (category, technique, level text, level note, design ref)
 CHECKS = {
+ "C16": ("fault_enumeration",
+         "runtime monitoring: include-transparency monitor (model of the file tree vs model of the textually flattened document), write/reload and merge_includes monitors, plus an enumerated list of include faults judged by error class",
+         "Generated documents are split at element boundaries into a main file and include files in a fresh directory tree (1-3 levels, sub-directories, quoted and unquoted names, / and \\ separators, directives inside nested blocks, inside IF_DATA payloads and inside the A2ML block). load(main) must equal load_from_string of the text with every directive replaced by the file content; the file written next to main must reload to an equal model and keep the directives of the main file; after merge_includes() the output must contain no /include and load to an equal model. The fault list (missing file, directory instead of file, empty file, self inclusion, mutual inclusion, missing nested file, directive without file name) must end in an error that names the directive, never in a panic, abort or partial result. 800 / 20 000 trees + 60 / 400 fault cases.",
+         "trusts: the harness' textual flattening as the definition of transparency; include files hold runs of complete sibling elements (or one balanced block inside IF_DATA); the A2ML block keeps its directive in the model and is compared in expanded form modulo whitespace",
+         "DESIGN.md section 3 C16"),
  "C17": ("exploration",
          "runtime monitoring: encoding-independence monitor (model equality of load(file in encoding e) against load_from_string of the decoded text), Latin-1 fallback oracle, panic monitor on corrupted byte strings",
          "Generated documents with non-ASCII, astral and combining characters in strings and comments are written in the ten encodings (UTF-8, UTF-16LE/BE, UTF-32LE/BE, each with and without BOM) with trailing padding so that the byte length reaches every residue mod 4 the encoding permits, loaded from the file and compared with the model of the decoded text; Latin-1 files (single bytes >= 0x80, including byte pairs that are well-formed UTF-8 in front of an invalid byte) must load as the text whose code points are the bytes; truncated, bit-flipped, surrogate-injected and random byte strings must not panic. 500 / 15 000 documents x 10 encodings x paddings.",
